@@ -112,7 +112,7 @@ func vhC05(engine int, route int, short int) {
 	var check func(args []any) bool
 	switch route {
 	case 0: // GetItem(id int [path], q *string [query], h string [header x-h])
-		id := vhNumberText("id", short, "019-+a", "", "")
+		id := vhNumberText("id", short, "019-+a", "214748364", "78") // around 2^31: an int is 64 bits wide here
 		req.Path = []greq.KV{{"id", id}}
 		qPresent := symxBool("q.present")
 		q := ""
